@@ -481,9 +481,12 @@ def rule_r9(repo):
                 if not rx or not ry:
                     raise AnalysisError('switch_subset_context could not be folded')
                 pairs.append((rx[0].locals['self'], ry[0].locals['self']))
+        from sa.rules.walk import REGISTERS
         for sa_, sb in pairs:
-            for attr in sorted(sa_.fields):
-                va, vb = sa_.fields[attr], sb.fields.get(attr)
+            for attr in sorted(set(sa_.fields) | set(REGISTERS)):
+                # read through the instance, as the walk does: a register that __init__ does not assign is the class-level default
+                va = sa_.fields[attr] if attr in sa_.fields else it.load_attr(sa_, attr, None, None)
+                vb = sb.fields[attr] if attr in sb.fields else it.load_attr(sb, attr, None, None)
                 rr.instance('CoderState.%s (%s)' % (attr, 'compressed' if comp else 'uncompressed'))
                 if c06._mutable(va) and va is vb:
                     rr.fail('CoderState.%s:shared-between-messages' % attr, init.where,
